@@ -342,7 +342,7 @@ def run_case(case, obs):
     # ---- (e) cross-set: X and Y of ONE call carry different sample sets ------------------------------------
     # each field's scores depend only on that field's samples: the X result must be labelled by X's samples
     # and the Y result by Y's, with the values of the separate transforms (never re-indexed onto each other)
-    if nfld == 2 and fitted.kind in ("cross", "cross_rot") and zlay["sizes"][0] >= 3 and not z_nan:
+    if nfld >= 2 and fitted.kind in ("cross", "cross_rot", "multi") and zlay["sizes"][0] >= 3 and not z_nan:
         size = zlay["sizes"][0]
         cut = max(1, size // 3)
         partA, partB = list(range(0, size - cut)), list(range(cut, size))[::-1]
@@ -352,12 +352,12 @@ def run_case(case, obs):
         idxA[0], idxB[0] = partA, partB
         rowsA, rowsB = cc.rows_of(zlay, idxA), cc.rows_of(zlay, idxB)
         PX = cc.isel_field(Z[0], {zs[0]: partA})
-        PY = cc.isel_field(Z[1], {zs[0]: partB})
+        PYs = [cc.isel_field(Zi, {zs[0]: partB}) for Zi in Z[1:]]  # multi-set: every further view on B
         xtags = etags(False, ztags["stacked_samples"], [zk[r] for r in rowsA])
         xctx = dict(ctx, what="xy_different_samples")
-        TXY = call("transform(X on A, Y on B)", [PX, PY], xtags, xctx)
+        TXY = call("transform(X on A, Y on B)", [PX] + PYs, xtags, xctx)
         if TXY is not None:
-            for i, (t, rows) in enumerate(zip(TXY, (rowsA, rowsB))):
+            for i, (t, rows) in enumerate(zip(TXY, [rowsA] + [rowsB] * len(PYs))):
                 cc.compare(
                     obs, "xy_diff", t, zs, [zk[r] for r in rows], onz[i][rows], zvalid[rows], modes[i], tol,
                     {"stacked_samples": ztags["stacked_samples"]}, "field_depends_on_other_fields_samples", "labels_not_from_new_data",
